@@ -463,6 +463,35 @@ def line_split(out: bytes):
     return out.replace(b"\r\n", b"\n").split(b"\n")
 
 
+def twice_decided_texts(ctx, n1, n2):
+    rng = ctx.rng
+    # statements that belong to two logical lines (child of an `if` in one conditional-compilation
+    # pass, plain statement in the other) and multi-line literals followed by a call, both inside
+    # indented blocks, at wrap columns next to their line lengths: tokens decided twice
+    bt = []
+    for _ in range(n1):
+        p = gen.grammar_program(rng).text()
+        lines = p.split("\n")
+        idx = [i for i, l in enumerate(lines) if l.startswith("  ") and l.rstrip().endswith(";") and not l.lstrip().startswith(("end", "until"))]
+        for i in rng.sample(idx, min(len(idx), 2)):
+            ind = lines[i][:len(lines[i]) - len(lines[i].lstrip())]
+            lines[i] = ind + "{$ifdef X}\n" + ind + "if Cond then\n" + ind + "{$else}\n" + ind + "Other;\n" + ind + "{$endif}\n" + lines[i]
+        bt.append(("\n".join(lines), gen.random_cfg(rng)))
+    for _ in range(n2):
+        # (the literal sits left OR far right of its final position: the first pass measures what follows the closing
+        # quotes from the SOURCE indentation, so the reflow has to add breaks in one case and to remove them in the other)
+        lind = " " * rng.choice([0, 0, 0, 2, 8, 16, 24, 30, 40])
+        lit = "'''\n" + lind + rng.choice(["", "  "]) + "foo\n" + lind + "'''"
+        # (half of them take an anonymous routine: its body is a CHILD line, re-decided by the reflow)
+        call = rng.choice([".Format(%s, %s)", ".Replace(%s, %s)", " + Foo(%s, %s)",
+                           ".Map(procedure begin %s; end, %s)", ".Each(procedure(X: T) begin %s; %s; end)", " + Foo(function: T begin Result := %s; end, %s)",
+                           ".Map(procedure begin %s(%s); end)"]) % ("B" + "b" * rng.randrange(3, 22), "C" + "c" * rng.randrange(3, 22))
+        body = "  " * rng.randrange(1, 4)
+        sep = rng.choice([" ", " ", "\n"])
+        bt.append(("procedure P;\nbegin\n" + body + "A :=" + sep + lit + call + ";\nend;\n", gen.random_cfg(rng)))
+    return bt
+
+
 def run_c08(ctx):
     rng = ctx.rng
 
@@ -516,27 +545,7 @@ def run_c08(ctx):
         cases.append(ctx.case("mut", gen.mutate(rng.choice(texts), rng, texts), gen.random_cfg(rng), meta={"invalid": True}))
     for _ in range(ctx.n(300, 6000)):
         cases.append(ctx.case("soup", gen.soup(rng, 1, 12), gen.random_cfg(rng), meta={"invalid": True}))
-    # statements that belong to two logical lines (child of an `if` in one conditional-compilation
-    # pass, plain statement in the other) and multi-line literals followed by a call, both inside
-    # indented blocks, at wrap columns next to their line lengths: tokens decided twice
-    bt = []
-    for _ in range(ctx.n(250, 4000)):
-        p = gen.grammar_program(rng).text()
-        lines = p.split("\n")
-        idx = [i for i, l in enumerate(lines) if l.startswith("  ") and l.rstrip().endswith(";") and not l.lstrip().startswith(("end", "until"))]
-        for i in rng.sample(idx, min(len(idx), 2)):
-            ind = lines[i][:len(lines[i]) - len(lines[i].lstrip())]
-            lines[i] = ind + "{$ifdef X}\n" + ind + "if Cond then\n" + ind + "{$else}\n" + ind + "Other;\n" + ind + "{$endif}\n" + lines[i]
-        bt.append(("\n".join(lines), gen.random_cfg(rng)))
-    for _ in range(ctx.n(250, 4000)):
-        lit = "'''\n" + rng.choice(["", "  "]) + "foo\n'''"
-        # (half of them take an anonymous routine: its body is a CHILD line, re-decided by the reflow)
-        call = rng.choice([".Format(%s, %s)", ".Replace(%s, %s)", " + Foo(%s, %s)",
-                           ".Map(procedure begin %s; end, %s)", ".Each(procedure(X: T) begin %s; %s; end)", " + Foo(function: T begin Result := %s; end, %s)",
-                           ".Map(procedure begin %s(%s); end)"]) % ("B" + "b" * rng.randrange(3, 22), "C" + "c" * rng.randrange(3, 22))
-        body = "  " * rng.randrange(1, 4)
-        sep = rng.choice([" ", " ", "\n"])
-        bt.append(("procedure P;\nbegin\n" + body + "A :=" + sep + lit + call + ";\nend;\n", gen.random_cfg(rng)))
+    bt = twice_decided_texts(ctx, ctx.n(250, 4000), ctx.n(250, 4000))
     cases += boundary_width_cases(ctx, bt, "twice-decided", input_lines=True)
     for kind, text in gen.codepoint_sweep(rng, frac=ctx.n(0.5, 1.0), wellformed_only=True):
         cases.append(ctx.case(kind, text, gen.DEFAULT_CFG, meta={"wellformed": True}))
@@ -568,6 +577,16 @@ def run_c09(ctx):
         if not verbatim_multiline:
             pairs.append((ctx.case(kind + "-inlf", text, lf), ctx.case(kind + "-incrlf", gen.to_crlf(text), lf), {"what": "input"}))
 
+    # `//` comments ended by a LONE CR and directly followed by a comment or code: the only line break the
+    # reconstructor adds on its own (the safety net after a line comment) must be the configured one too
+    crtexts = []
+    for text, kind, wrap in pool[:: ctx.n(2, 1)]:
+        t2 = lone_cr_comment_variant(text, rng)
+        if t2 and not gen.has_multiline_token(t2) and not gen.has_asm_or_toggle(t2):
+            crtexts.append(t2)
+            cfg = gen.random_cfg(rng)
+            pairs.append((ctx.case("lone-cr-lf", t2, cfg[:6] + (0,)), ctx.case("lone-cr-crlf", t2, cfg[:6] + (1,)), {"what": "config", "vm": False}))
+
     def compare(ra, rb, meta):
         if meta["what"] == "config":
             ctx.count("lf_vs_crlf_config")
@@ -594,6 +613,8 @@ def run_c09(ctx):
         lit = gen_literal(rng)
         cfg = gen.random_cfg(rng)
         sample.append(ctx.case("literal", literal_text(rng, lit), cfg))
+    for t2 in crtexts[:: 2]:
+        sample.append(ctx.case("lone-cr-trace", t2, gen.random_cfg(rng)[:6] + (1,)))
     lits = [c for c in sample if c.meta["stream"] == "literal"][:: 2]
     res0 = ctx.run_stream([ctx.case("literal-pre", c.text, c.cfg) for c in lits], mode="fmt")
     for r in res0.values():
@@ -1248,6 +1269,9 @@ def run_c02(ctx):
         cases.append(ctx.case(kind, text, gen.random_cfg(rng, wrap=rng.choice([wrap, 20, 40, 80, 120, 1000000]))))
     for kind, text in gen.codepoint_sweep(rng, frac=ctx.n(0.5, 1.0), wellformed_only=True):
         cases.append(ctx.case(kind, text, gen.DEFAULT_CFG))
+    # tokens decided twice (reflow after a multi-line literal, statements in two conditional-compilation lines) at
+    # boundary widths: a token that moves back onto the previous line must get its separating space back
+    cases += boundary_width_cases(ctx, twice_decided_texts(ctx, ctx.n(120, 2000), ctx.n(250, 4000)), "twice-decided", input_lines=True)
     ctx.run_stream(cases, units=["spacing", "generics", "invariants", "relex", "lex", "comment", "lower", "recon"])
     ctx.hypotheses["plan_ok: break after line comments / unterminated literals, inline comments never broken off"] = "re-scan oracle on every case (comment kinds are part of the compared token kinds)"
     ctx.hypotheses["lex_one_local (each sub-lexer depends on its own bytes plus a follow set)"] = "re-scan with the verified model lexer and with the real lexer on every case"
@@ -1287,8 +1311,21 @@ def run_c06(ctx):
             a, b = rng.sample([4, 8, 16, 24], 2)
             pairs.append((ctx.case("long-list", long_list(n, a, kind), cfg), ctx.case("long-list-relayout", long_list(n, b, kind), cfg), {}))
 
+    # asm blocks: only their instruction lines are excluded; the layout of `asm`, of the closing `end`, of its `;`
+    # and of the surrounding code must not matter (bodies: empty, one line, `;`-separated, last instruction ended by `;`)
+    for _ in range(ctx.n(300, 6000)):
+        a, b, body = gen.asm_pair(rng)
+        if a != b:
+            cfg = gen.random_cfg(rng, wrap=rng.choice([40, 80, 120]))
+            pairs.append((ctx.case("asm", a, cfg, meta={"asm_body": body}), ctx.case("asm-relayout", b, cfg, meta={"asm_body": body}), {"asm_body": body}))
+
     def compare(ra, rb, meta):
         ctx.count("relayout_pairs")
+        if meta.get("asm_body") is not None:
+            for r in (ra, rb):
+                if meta["asm_body"].encode("utf-8") not in r.out:
+                    ctx.fail("asm_lines_not_verbatim", r.case, "the instruction lines %r of the asm block are not in the output byte for byte" % meta["asm_body"][:200], observed=r.out.hex()[:2000])
+                    return
         if ra.out != rb.out:
             ctx.fail("relayout_differs", rb.case, "formatting a re-layouted input gives a different result; original input: %r" % ra.case.text[:300],
                      observed=rb.out.hex()[:2000], expected=ra.out.hex()[:2000], gap_class=meta.get("gap_class"))
@@ -1534,6 +1571,62 @@ def run_c11(ctx):
             cases.append(c)
             g.append((w, c))
         groups.append(g)
+    # several multi-line literals on one logical line: formatted once without a limit, then ONE literal (not the last)
+    # is shifted sideways as a whole (its value is unchanged), at widths around the line lengths: the line has to be
+    # re-wrapped after the re-indentation whichever literal was the one that changed
+    def ml_line(rng):
+        def lit(word):
+            return "'''\n  %s\n  '''" % word
+        def call():
+            n = rng.choice([1, 2, 3])
+            args = ", ".join(rng.choice("abcdxyz") * rng.randrange(4, 12) for _ in range(n))
+            return rng.choice([".Format(%s)", ".Replace(%s)", ".Pad(%s)"]) % args
+        k = rng.choice([2, 2, 3])
+        lits = [lit("text%d" % i) + (call() if rng.random() < 0.8 else "") for i in range(k)]
+        shape = rng.choice(["Run(%s);", "Q := %s;", "Log(X, %s);"])
+        sep = ", " if shape != "Q := %s;" else " + "
+        body = shape % sep.join(lits)
+        depth = rng.randrange(0, 3)
+        pre = "procedure P;\nbegin\n" + "".join("  " * (d + 1) + "if C%d then begin\n" % d for d in range(depth))
+        post = "".join("  " * (d + 1) + "end;\n" for d in reversed(range(depth))) + "end;\n"
+        return pre + "  " * (depth + 1) + body + "\n" + post
+    mprobes = [ctx.case("ml-probe", ml_line(rng), (1000000000,) + tuple(gen.random_cfg(rng)[1:])) for _ in range(ctx.n(200, 3000))]
+    mres = ctx.run_stream(mprobes, mode="fmt")
+    for pc in mprobes:
+        r = mres.get(pc.id)
+        if r is None or r.out is None:
+            continue
+        try:
+            y = r.out.decode("utf-8")
+        except UnicodeDecodeError:
+            continue
+        spans = [m.span() for m in re.finditer(r"'''\r?\n(?:.*\r?\n)*?[ \t]*'''", y)]
+        if len(spans) < 2:
+            continue
+        a, b = spans[rng.randrange(0, len(spans) - 1)]
+        lit_lines = y[a:b].split("\n")
+        shift = rng.choice([-4, -2, -1, 1, 2, 3, 4, 6, 8])
+        new_lines = [lit_lines[0]]
+        for ln in lit_lines[1:]:
+            if shift > 0:
+                new_lines.append(" " * shift + ln)
+            else:
+                lead = len(ln) - len(ln.lstrip(" "))
+                new_lines.append(ln[min(lead, -shift):])
+        if shift < 0 and len({len(l) - len(l.lstrip(" ")) for l in lit_lines[1:] if l.strip()}) > 1:
+            continue
+        z = y[:a] + "\n".join(new_lines) + y[b:]
+        lens = sorted({len(l.rstrip("\r")) for l in (y + "\n" + z).split("\n") if 12 <= len(l.rstrip("\r")) <= 200})
+        if not lens:
+            continue
+        g = []
+        for L in rng.sample(lens, min(len(lens), 2)):
+            for w in sorted(set(max(10, L + d) for d in rng.sample(range(-9, 10), ctx.n(4, 7)))):
+                c = ctx.case("ml-shifted", z, (w,) + tuple(pc.cfg[1:]))
+                cases.append(c)
+                g.append((w, c))
+        g.sort(key=lambda t: t[0])
+        groups.append(g)
     # the listed findings' witnesses, replayed through the same comparison
     from . import findings as _f
     for k in _f.load():
@@ -1568,13 +1661,17 @@ def run_c11(ctx):
                     if "'''" in (c1.text if isinstance(c1.text, str) else ""):
                         f["ml_families"] = ml_string_families(ctx, c1.text, c1.cfg)
                 if o2.count(b"\n") > o1.count(b"\n"):
-                    ctx.fail("wider_more_lines", c2, "wrap_column=%d gives %d lines, wrap_column=%d gives %d" % (w2, o2.count(b"\n"), w1, o1.count(b"\n")),
+                    f = ctx.fail("wider_more_lines", c2, "wrap_column=%d gives %d lines, wrap_column=%d gives %d" % (w2, o2.count(b"\n"), w1, o1.count(b"\n")),
                              observed=o2.hex()[:2000], expected=o1.hex()[:2000], narrow_overflows=bool(maxlen(o1) > w1), wide_overflows=bool(maxlen(o2) > w2))
+                    if "'''" in (c2.text if isinstance(c2.text, str) else ""):
+                        f["ml_families"] = ml_string_families(ctx, c2.text, c2.cfg)
                 if maxlen(o1) <= w1 and maxlen(o2) > w2:
                     ls = [l.rstrip(b"\r") for l in o2.split(b"\n")]
                     over = [[ls[k - 1].decode("utf-8", "replace") if k else "", ls[k].decode("utf-8", "replace")] for k in range(len(ls)) if len(ls[k]) > w2]
-                    ctx.fail("fits_not_monotone", c2, "every line fits at wrap_column=%d but not at %d" % (w1, w2), observed=o2.hex()[:2000],
-                             wide=w2, over_lines=over[:8], over_count=len(over))
+                    f = ctx.fail("fits_not_monotone", c2, "every line fits at wrap_column=%d but not at %d" % (w1, w2), observed=o2.hex()[:2000],
+                                 wide=w2, over_lines=over[:8], over_count=len(over))
+                    if "'''" in (c2.text if isinstance(c2.text, str) else ""):
+                        f["ml_families"] = ml_string_families(ctx, c2.text, c2.cfg)
     ctx.hypotheses["the search returns (an equivalent of) a minimiser over a width-independent candidate set"] = "width pairs on the real formatter (the theorems are supporting lemmas only)"
 
 
@@ -2011,15 +2108,34 @@ def run_c19(ctx):
                 other = rng.choice(KEYS[k])
                 args += ["-C", "%s=%s" % (k, str(other).strip('"'))]
                 assign[k] = other
-        use_option = rng.random() < 0.3
-        if use_option:
+        use_option = rng.random() < 0.4
+        decoy = None
+        if use_option and rng.random() < 0.6:
+            # --config-file REPLACES the ancestor search: the explicit file lives elsewhere, and the working directory
+            # (or an ancestor) holds a pasfmt.toml with other values for every key - sometimes with an unknown key or an
+            # ill-typed value, which must not matter because that file is not the selected one
+            optdir = os.path.join(root, "opt")
+            os.makedirs(optdir, exist_ok=True)
+            explicit = os.path.join(optdir, rng.choice(["explicit.toml", "pasfmt.toml", "my.cfg"]))
+            os.replace(os.path.join(near, "pasfmt.toml"), explicit)
+            decoy = rng.choice(["values", "values", "unknown_key", "ill_typed"])
+            with open(os.path.join(near, "pasfmt.toml"), "w") as f:
+                for k, vs in KEYS.items():
+                    f.write("%s = %s\n" % (k, rng.choice(vs)))
+                if decoy == "unknown_key":
+                    f.write("no_such_key = 1\n")
+                elif decoy == "ill_typed":
+                    f.write("encoding = 17\n")
+            args = ["--config-file", explicit] + args
+            run_cwd = cwd
+        elif use_option:
             args = ["--config-file", os.path.join(near, "pasfmt.toml")] + args
             run_cwd = wd
         else:
             run_cwd = cwd
         rc, out, err = cli.run(args, run_cwd, stdin=src)
         rc2, ref, err2 = fmt_with(assign, wd)
-        case = ctx.case("cfg", "depth %d level %d file=%s cli=%s option=%s" % (depth, level, in_file, on_cli, use_option), gen.DEFAULT_CFG)
+        case = ctx.case("cfg", "depth %d level %d file=%s cli=%s option=%s decoy=%s" % (depth, level, in_file, on_cli, use_option, decoy), gen.DEFAULT_CFG)
         ctx.note_case(case)
         ctx.count("precedence_cases")
         if len(ctx.samples) < 5:
